@@ -82,8 +82,8 @@ MIN = {'evaluations': 600, 'decisions': 5000, 'allow_decisions': 300, 'file_sele
        'layerings_restating_layer_between_differing_layers': 40,
        'history_steps_last_definer_restates_default_after_differing_layer': 30,
        'restated_default_decisions': 4000,
-       'layerings_configured_by_set_override': 1500, 'layerings_configured_by_set_default': 120,
-       'layerings_configured_by_config_file': 120, 'layerings_config_file_two_or_more_policy_dirs_lines': 120,
+       'layerings_configured_by_set_override': 1500, 'layerings_configured_by_set_default': 100,
+       'layerings_configured_by_config_file': 100, 'layerings_config_file_two_or_more_policy_dirs_lines': 100,
        'layerings_config_file_relative_names': 30, 'layerings_config_file_with_missing_directory_line': 40}
 ANCHORS = ['oslo_policy.policy:Enforcer.load_rules', 'oslo_policy.policy:Enforcer._walk_through_policy_directory',
            'oslo_policy.policy:pick_default_policy_file', 'oslo_policy.policy:parse_file_contents',
